@@ -32,6 +32,7 @@ EXPLANATION = (
   ' (LOOP-break) no loop over the items of a collection is left by a branch that does nothing but `break` on a test about the item (end-of-input sentinels, flags set in the loop body and searches whose variable is read afterwards excepted): an item that is to be skipped does not end the processing of the items after it;'
   ' (FIN-regex) as in C13 for the white-space collapsing substitution;'
   ' (ORD-style) as in C13: the display test that prunes an element runs after every source of its display value has been applied (animation, specified, initial values);'
+  + common.SHARED_CLAUSES['validators'] + common.SHARED_CLAUSES['truthy']
 )
 RULE_TEXT = "per guard x ordering table, per grid, per call site, per truth table"
 UNDECIDED = ["interval arithmetic under arbitrary nesting as values", "text appears once each, in document order, nothing moved between regions (data dependent)",
@@ -131,6 +132,7 @@ def check_default_region(ctx):
 
 
 def run(ctx):
+  common.check_shared_helpers(ctx, validators=True, truthy_modules=["ttconv.model", "ttconv.isd"])
   ix = ctx.ix
   n = isdrules.check_activity_guards(ctx)
   ctx.floor("CMP-activity", "activity guards", n, 3)
